@@ -2,6 +2,7 @@ package props
 
 import (
 	"fmt"
+	"math"
 	"strings"
 
 	"github.com/ipfs/go-cid"
@@ -69,6 +70,12 @@ func c03ValStmts() []c03ValStmt {
 		{`== .xs[010] 8`, policy.Equal(".xs[010]", literal.Int(8)), func(string, cid.Cid, bool) bool { return false }},
 		{`not(== .xs[-012] 0)`, policy.Not(policy.Equal(".xs[-012]", literal.Int(0))), func(string, cid.Cid, bool) bool { return false }},
 		{`== .xs[007:011] [7]`, policy.Equal(".xs[007:011]", nList(nInt(7))), func(string, cid.Cid, bool) bool { return false }},
+		// float bounds are exact: f is the next float above 0.3, g the next one below (an argument that misses the bound by one ulp misses it)
+		{`<= .f 0.3`, policy.LessThanOrEqual(".f", literal.Float(0.3)), func(string, cid.Cid, bool) bool { return false }},
+		{`not(> .f 0.3)`, policy.Not(policy.GreaterThan(".f", literal.Float(0.3))), func(string, cid.Cid, bool) bool { return false }},
+		{`>= .g 0.3`, policy.GreaterThanOrEqual(".g", literal.Float(0.3)), func(string, cid.Cid, bool) bool { return false }},
+		{`< .g 0.3`, policy.LessThan(".g", literal.Float(0.3)), func(string, cid.Cid, bool) bool { return true }},
+		{`> .f 0.3`, policy.GreaterThan(".f", literal.Float(0.3)), func(string, cid.Cid, bool) bool { return true }},
 		// two slices in a row, each with its own bounds (xs[1:][:2] = [1, 2]; name[1:][:2] = characters 1 and 2)
 		{`not(== .xs[1:][:2] [1,2])`, policy.Not(policy.Equal(".xs[1:][:2]", nList(nInt(1), nInt(2)))), func(string, cid.Cid, bool) bool { return false }},
 		{`== .xs[1:][:2] [0,1]`, policy.Equal(".xs[1:][:2]", nList(nInt(0), nInt(1))), func(string, cid.Cid, bool) bool { return false }},
@@ -106,7 +113,7 @@ func c03ValuesSub(dir string) *engine.Sub {
 		{"link(json,h0)", cid.NewCidV1(cid.DagJSON, cidPool[0].Hash()), true}, {"link(cbor,h1)", cidPool[1], true}, {"string-of-the-cid", cidPool[0], false}}
 	return &engine.Sub{
 		Name: name,
-		Rule: "chains whose policy holds one of " + fmt.Sprint(len(stmts)) + " statements - a link pinned with == (bare, negated, under any) and conditions on character slices of a string with negative bounds, on list indexes written with leading zeros (decimal), on two slices in a row with different bounds, and on a key that is present with the value null (not absent) - on the leaf, the root or a single link; arguments: k (and the one-element list ks) = the pinned link, the same digest under raw / dag-json codec or CIDv0, another digest, or the CID's text; name = 10 strings with characters of 1 - 4 bytes; both APIs, delegations in memory and sealed + decoded; reference = CID identity / slices by character, independent of the real Match; non-trivial = all",
+		Rule: "chains whose policy holds one of " + fmt.Sprint(len(stmts)) + " statements - a link pinned with == (bare, negated, under any) and conditions on character slices of a string with negative bounds, on list indexes written with leading zeros (decimal), on two slices in a row with different bounds, on float bounds missed by one ulp, and on a key that is present with the value null (not absent) - on the leaf, the root or a single link; arguments: k (and the one-element list ks) = the pinned link, the same digest under raw / dag-json codec or CIDv0, another digest, or the CID's text; name = 10 strings with characters of 1 - 4 bytes; both APIs, delegations in memory and sealed + decoded; reference = CID identity / slices by character, independent of the real Match; non-trivial = all",
 		Bound: func(string) string {
 			return fmt.Sprintf("%d statements x 3 placements x %d links x %d strings x 2 APIs x 2 token forms", len(stmts), len(links), len(names))
 		},
@@ -156,6 +163,8 @@ func c03ValuesSub(dir string) *engine.Sub {
 					a := args.New()
 					_ = a.Add("name", nm)
 					_ = a.Add("xs", []int{0, 1, 2, 3, 4, 5, 6, 7, 8, 9, 10, 11})
+					_ = a.Add("f", math.Nextafter(0.3, 1))
+					_ = a.Add("g", math.Nextafter(0.3, 0))
 					if err := a.Add("m", nMap(kv{"role", nNull()}, kv{"tags", nList(nNull())})); err != nil {
 						panic(err)
 					}
